@@ -94,6 +94,15 @@ def compile : Ast → List Instr
     if n == [45] then [.push (negateVal (valOfHexText t))]
     else if n == [43] then [.push (valOfHexText t)]
     else [.push (valOfHexText t), .callUnary (lower n)]
+  | .unary n (.unary m a) =>
+    -- a sign in front of a literal that already carries a sign ("- + 279") is folded as well: the operand is no
+    -- NUMBER node, but a sign whose operand compiled to the push of one scalar
+    if isSign n && isSign m then
+      match compile (.unary m a) with
+      | [.push (.num d)] => if n == [45] then [.push (.num d.negate)] else [.push (.num d)]
+      | [.push .nan] => [.push .nan]
+      | is => is ++ [.callUnary (lower n)]
+    else compile (.unary m a) ++ [.callUnary (lower n)]
   | .unary n a => compile a ++ [.callUnary (lower n)]
   | .binary k n l r => compile l ++ compile r ++ [.callBinary (lower n) k]
   | .array es => compileList es ++ [.makeArray es.length]
